@@ -453,6 +453,7 @@ import mir_jobs_rounds    # noqa: E402,F401  (registers the round / epoch jobs)
 import mir_jobs_tracker    # noqa: E402,F401  (registers the transaction tracker commit job)
 import mir_jobs_dbkey    # noqa: E402,F401  (registers the sorted database key jobs)
 import mir_jobs_overlay    # noqa: E402,F401  (registers the overlay listing job)
+import mir_jobs_royalty    # noqa: E402,F401  (registers the royalty bookkeeping jobs)
 
 
 def _index():
